@@ -41,6 +41,13 @@ pub struct TrainCase {
     /// its loop) run the case in a child process and compare outcome and final state
     #[serde(default)]
     pub also_real_walk: bool,
+    /// speed-limited only: the scenario year handed to the builder (it must not influence the
+    /// annualisation, which is by `simulation_days`)
+    #[serde(default)]
+    pub scenario_year: Option<i32>,
+    /// build through the `..._and_parts` sibling constructors
+    #[serde(default)]
+    pub and_parts: bool,
 }
 
 pub struct TrainRun {
@@ -136,7 +143,11 @@ pub fn run_case(case: &TrainCase) -> TrainRun {
                 case.trace.iter().map(|x| x.1).collect(),
                 None,
             );
-            tsb.make_set_speed_train_sim(&net, &path, trace, case.save_interval)
+            if case.and_parts {
+                Ok(tsb.make_set_speed_train_sim_and_parts(&net, &path, trace, case.save_interval)?.0)
+            } else {
+                tsb.make_set_speed_train_sim(&net, &path, trace, case.save_interval)
+            }
         })();
         let mut sim = match built {
             Ok(s) => s,
@@ -171,7 +182,11 @@ pub fn run_case(case: &TrainCase) -> TrainRun {
             let mut lm: HashMap<String, Vec<Location>> = HashMap::new();
             lm.insert("A".into(), vec![location("A", 1)]);
             lm.insert("B".into(), vec![location("B", n as u32)]);
-            tsb.make_speed_limit_train_sim(&lm, case.save_interval, case.simulation_days, None)
+            if case.and_parts {
+                Ok(tsb.make_speed_limit_train_sim_and_parts(&lm, case.save_interval, case.simulation_days, case.scenario_year)?.0)
+            } else {
+                tsb.make_speed_limit_train_sim(&lm, case.save_interval, case.simulation_days, case.scenario_year)
+            }
         })();
         let mut sim = match built {
             Ok(s) => s,
@@ -590,7 +605,7 @@ pub fn gen_set_speed_case(g: &mut Gen, tier: Tier, allow_dummy: bool) -> TrainCa
             v = v_new;
             trace.push((r(t, 1), v));
         }
-        return TrainCase { links, train, mode: 0, trace, save_interval: Some(1), simulation_days: None, init_speed_zero: false, also_real_walk: false };
+        return TrainCase { links, train, mode: 0, trace, save_interval: Some(1), simulation_days: None, init_speed_zero: false, also_real_walk: false, scenario_year: None, and_parts: false };
     }
     let o = ChainOpts { max_links: 6, len_weights: [6, 3, 1], ..Default::default() };
     let ahead = g.grid(400.0, 6000.0, 14);
@@ -598,7 +613,7 @@ pub fn gen_set_speed_case(g: &mut Gen, tier: Tier, allow_dummy: bool) -> TrainCa
     let total: f64 = links.iter().map(|l| l.length).sum();
     // consistent inputs: the trace starts at the train's initial time and speed
     let trace = gen_trace(g, total - tp.length - 20.0, 30.0, train.init_time, max_steps);
-    TrainCase { links, train, mode: 0, trace, save_interval: Some(1), simulation_days: None, init_speed_zero: false, also_real_walk: false }
+    TrainCase { links, train, mode: 0, trace, save_interval: Some(1), simulation_days: None, init_speed_zero: false, also_real_walk: false, scenario_year: None, and_parts: false }
 }
 
 // ---------------------------------------------------------------------------------------
